@@ -161,6 +161,8 @@ func (r *Reporter) getFileLines(filename string) []string {
 
 	var lines []string
 	scanner := bufio.NewScanner(strings.NewReader(string(content)))
+	// a line may be longer than bufio.MaxScanTokenSize (generated or minified code)
+	scanner.Buffer(nil, len(content)+1)
 	for scanner.Scan() {
 		lines = append(lines, scanner.Text())
 	}
